@@ -11,6 +11,7 @@
 #include <sstream>
 #include <string>
 #include <vector>
+#include "verif_guard.h"
 
 #include "naunet_constants.h"
 #include "naunet_data.h"
@@ -28,7 +29,11 @@ int verif_EvalRates(realtype *k, realtype *y, NaunetData *d) {
     seam_calls++;
     int r = 0;
     if (g_mode == MODE_PASS) {
-        r = EvalRates(k, y, d);
+        double *gk = verif_guarded_alloc(NREACTIONS);
+        for (int i = 0; i < NREACTIONS; i++) gk[i] = k[i];
+        r = EvalRates(gk, y, d);
+        for (int i = 0; i < NREACTIONS; i++) k[i] = gk[i];
+        verif_guarded_free(gk, NREACTIONS);
         seen_k.insert(seen_k.end(), k, k + NREACTIONS);   // one block per system, in launch order
     } else {
         for (int i = 0; i < NREACTIONS; i++) k[i] = use_k[i];
@@ -158,11 +163,11 @@ int main() {
         } else if (cmd == "rates") {
             printf("{\"ev\":\"rates\",\"k\":[");
             for (int s = 0; s < g_nsys; s++) {
-                double *k = (double *)malloc(sizeof(double) * NREACTIONS);
+                double *k = verif_guarded_alloc(NREACTIONS);
                 for (int i = 0; i < NREACTIONS; i++) k[i] = 0.0;
                 EvalRates(k, &g_y[(size_t)s * NEQUATIONS], &g_data[s]);
                 for (int i = 0; i < NREACTIONS; i++) { if (s || i) printf(","); pnum(k[i]); }
-                free(k);
+                verif_guarded_free(k, NREACTIONS);
             }
             printf("]}\n");
         } else if (cmd == "idx") {
